@@ -325,12 +325,10 @@ class Check(DiffCheck):
         return None
 
     def extra(self, ctx):
-        # known finding F31 is recognised by its exact pattern inside oracle_E (not by a case class), so that any other
+        # known finding F32 is recognised by its exact pattern inside oracle_E (not by a case class), so that any other
         # violation in the same case is still reported
         self.extra_coverage = dict(known_finding_hits=dict(self.known_hits), known_finding_first_case=dict(self.known_first))
-        if self.known_hits.get('F31') and not any(f.get('id') == 'F31' for f in load_known_findings(self.id)):
-            print('KNOWN-FINDING: property=C10 F31 EPOLLHUP consumes the one-shot arming of an EVENT_ERROR waiter without waking it '
-                  '(%d cases, e.g. "%s")' % (self.known_hits['F31'], self.known_first['F31']))
+        # (the KNOWN-FINDING line is printed by DiffCheck from known_findings.json, entry F32)
         return []
 
     # ------------------------------------------------------------------ the property, on the implementation's output
@@ -564,11 +562,11 @@ class Check(DiffCheck):
                     k = kern.get(w['fd'])
                     rep = reported.get(w['fd'], 0)
                     if w['d'] == 4 and k is not None and not k[1] and (rep & 16) and not (rep & 8):
-                        # known finding F31: EPOLLHUP (always reported by the kernel) consumes the one-shot arming of an
+                        # known finding F32: EPOLLHUP (always reported by the kernel) consumes the one-shot arming of an
                         # EVENT_ERROR waiter without waking it (HUP is not in ERRBIT) and nothing re-arms the descriptor
                         w['orphan'] = True
-                        self.known_hits['F31'] = self.known_hits.get('F31', 0) + 1
-                        self.known_first.setdefault('F31', case)
+                        self.known_hits['F32'] = self.known_hits.get('F32', 0) + 1
+                        self.known_first.setdefault('F32', case)
                         continue
                     if k is None or not k[1] or (k[0] & evbits[w['d']]) != evbits[w['d']] or not (k[0] & (1 << 30)):
                         return 'after step %s: thread %d waits for fd %d dir %d but the kernel entry is %s (not armed for it)' % (tok, t, w['fd'], w['d'], k)
